@@ -138,6 +138,7 @@ func loadProg(repoDir, verifDir string) (*Prog, error) {
 			p.cs.parseFile(path, f, string(data))
 		}
 	}
+	splitPures = p.cs.Pures
 	return p, nil
 }
 
